@@ -101,7 +101,7 @@ func fixedPointOracle(rep Rep, s *Sys, checkQuiet bool) {
 		rep.Violate("fixpoint/census", "status {replicas=%d ready=%d current=%d updated=%d} but the live pods are {total=%d ready=%d atCurrent=%d atUpdate=%d}\n%s",
 			st.Replicas, st.ReadyReplicas, st.CurrentReplicas, st.UpdatedReplicas, len(seen), nReady, nCur, nUpd, s.Transcript())
 	}
-	if st.ObservedGeneration != set.Generation {
+	if st.ObservedGeneration < set.Generation || (st.ObservedGeneration > set.Generation && !s.statusRestored) {
 		rep.Violate("fixpoint/observed-generation", "observedGeneration=%d generation=%d at the fixed point\n%s", st.ObservedGeneration, set.Generation, s.Transcript())
 	}
 	if checkQuiet {
@@ -273,6 +273,8 @@ var c02Opts = func() worldOpts {
 	w[OpEditStrategy] = 1
 	w[OpEditLimit] = 1
 	w[OpRestart] = 1
+	w[OpStatusRestored] = 1
+	w[OpClaimTerminating] = 1
 	o.weights = w
 	return o
 }()
@@ -352,6 +354,7 @@ var c12Opts = func() worldOpts {
 	w[OpKubelet] = 10
 	w[OpAddStrayPod] = 1
 	w[OpRelabelPod] = 1
+	w[OpStatusRestored] = 1
 	o.weights = w
 	return o
 }()
